@@ -307,7 +307,7 @@ class C26(Check):
         return parse(r.rc, r.err, d)
 
     @staticmethod
-    def _compare(ref, got, dom, mask):
+    def _compare(ref, got, dom, maskable):
         """Returns (signature or None, masked-label or None)."""
         if got["rc"] != ref["rc"]:
             return "exit-status", None
@@ -318,7 +318,7 @@ class C26(Check):
         ka, kb = kind_of(ref["error"]), kind_of(got["error"])
         # known finding 2: FileId tokens
         if FILEID.sub("<FID>", got["error"]) == FILEID.sub("<FID>", ref["error"]):
-            if mask:
+            if "error-text-embeds-file-id" in maskable:
                 return None, "masked:error-text-embeds-file-id"
             return "error-text-embeds-file-id", None
         # known finding 1: which undefined-symbol error is reported
@@ -329,7 +329,7 @@ class C26(Check):
                 if not mm or (mm.group(1), mm.group(2)) not in dom["undef_pairs"]:
                     ok = False
             if ok and len(dom["undef_pairs"]) >= 2:
-                if mask:
+                if "error-choice:undefined-vs-undefined" in maskable:
                     return None, "masked:error-choice:undefined-vs-undefined"
                 return "error-choice:undefined-vs-undefined", None
         # known finding 3: which group's relocation error the writer reports
@@ -340,7 +340,7 @@ class C26(Check):
                 if not mm or mm.group(1) not in dom["ovf_objs"]:
                     ok = False
             if ok and len(dom["ovf_objs"]) >= 2:
-                if mask:
+                if "error-choice:relocation-vs-relocation" in maskable:
                     return None, "masked:error-choice:relocation-vs-relocation"
                 return "error-choice:relocation-vs-relocation", None
         if ka == kb:
@@ -351,7 +351,9 @@ class C26(Check):
         d = ctx.dir
         args, undef_pairs = emit(case, d)
         dom = {"undef_pairs": undef_pairs, "ovf_objs": {f"o{v['o'] % case['nobj']}.o" for v in case["ovf"]}}
-        mask = not ctx.strict
+        # Only findings still listed as `known` are masked (and never in strict replay).
+        from vlib import core as _core
+        mask = set() if ctx.strict else {e["signature"] for e in _core.load_known("C26") if e.get("status") == "known"}
         # A stored known-finding case may name other known signatures that stay masked even in strict
         # replay (the FileId text difference accompanies every relocation-error case).
         keep = set(case.get("keep_masked", []))
